@@ -69,7 +69,9 @@ type lpFunc struct {
 	mutated  []*types.Var
 	text     string
 	nret     int
-	errRes   bool // ext: the last Go result is `error` (a non-nil error is `Outcome.err`)
+	errRes   bool       // ext: the last Go result is `error` (a non-nil error is `Outcome.err`)
+	exts     []lpExtern // ext: untranslated callees taken as parameters
+	errMut   bool       // ext: an error return may follow a write of the receiver
 }
 
 type lpGen struct {
@@ -97,6 +99,7 @@ type lpTr struct {
 	ntmp  int
 	ncond int
 	cache map[ast.Node][]string // loop statement → its (unindented) call lines: a loop reached twice (duplicated continuation) is one function
+	exts  []lpExtern            // ext: untranslated callees taken as parameters
 }
 
 func lpRefuse(fs *token.FileSet, n ast.Node, format string, a ...interface{}) {
@@ -238,6 +241,8 @@ func (t *lpTr) rootVar(e ast.Expr) *types.Var {
 		return t.rootVar(x.X)
 	case *ast.SelectorExpr:
 		return t.rootVar(x.X)
+	case *ast.StarExpr:
+		return t.rootVar(x.X)
 	}
 	return nil
 }
@@ -362,6 +367,9 @@ func (t *lpTr) checkShadow() {
 	})
 	for _, a := range vars {
 		for _, b := range vars {
+			if t.g.ext != nil && t.extShadowOK(b) {
+				continue // ext: the `err` of `if err := f(); err != nil` is never bound in the Lean text (forms A / B of loops_structs.go)
+			}
 			if a != b && a.Name() == b.Name() && a.Name() != "_" {
 				sa := a.Parent()
 				if sa != nil && sa.Contains(b.Pos()) && b.Pos() > a.Pos() {
@@ -747,6 +755,9 @@ func (t *lpTr) copyCall(c *ast.CallExpr, b *lpBinds) string {
 		t.refuse(c, "copy arity")
 	}
 	dst, ok := paren(c.Args[0]).(*ast.SliceExpr)
+	if id, isId := paren(c.Args[0]).(*ast.Ident); !ok && isId && t.g.ext != nil {
+		dst, ok = &ast.SliceExpr{X: id}, true // copy(x, src) is copy(x[0:len(x)], src)
+	}
 	if !ok || dst.Slice3 {
 		t.refuse(c, "copy destination must be X[lo:hi]")
 	}
@@ -866,6 +877,11 @@ func (t *lpTr) argExpr(a ast.Expr, b *lpBinds) string {
 
 func (t *lpTr) cond(e ast.Expr, b *lpBinds) string {
 	e = paren(e)
+	if t.g.ext != nil {
+		if s, ok := t.extCond(e, b); ok {
+			return s
+		}
+	}
 	switch x := e.(type) {
 	case *ast.BinaryExpr:
 		switch x.Op {
@@ -1768,6 +1784,9 @@ func (g *lpGen) translate(f *types.Func) (res *lpFunc, why string) {
 		return ret("", ind)
 	}
 	body := t.block(fd.Body.List, 2, &lpJump{ret: ret}, end)
+	if t.g.ext != nil {
+		body = t.extFinish(fn, body)
+	}
 	pos := p.Fset.Position(fd.Pos())
 	var sb strings.Builder
 	for _, l := range t.loops {
